@@ -3,54 +3,197 @@
 Single-thread part: random values through every path (API call, libffi call,
 in-line ABI call, callback, extern "Python", global-variable fetch), with
 Python activity that changes the real errno in between.
+Sequence part: random operation histories against a one-variable reference
+model of the thread's errno (see RULE).
 Schedule part: Python threads (and pthreads not created by Python) each write
 errno values tagged with their identity; every observation is logged and a
 thread may only ever observe its own most recent value.  Repeated on the TSan
 build, deciding only at the errno save slot.
 """
-import os, sys, time, threading, random
-from vlib import core, modbuild, thrmod
+import os, sys, time, threading, random, subprocess
+from vlib import core, modbuild, thrmod, build as vbuild
 
-RULE = ("case = (a) single-thread transfer: (path, value) over 0, +-1, INT_MIN/MAX, random ints, "
-        "with interleaved Python activity that sets the real errno; (b) one multi-thread run: 2-4 "
-        "Python threads + 0-3 foreign pthreads, 200 set/call/get rounds each with values tagged "
+RULE = ("case = (a) single-thread transfer: (path, value) over 0, +-1, INT_MIN/MAX, random ints "
+        "in both directions (the value a C function leaves is 0 / negative / positive in turn), "
+        "with interleaved Python activity that sets the real errno; (a') random operation "
+        "histories judged against a one-variable model of the thread's errno: assignment through "
+        "ffi.errno of a compiled FFI / of cffi.FFI() / _cffi_backend.set_errno, out-of-range "
+        "assignments, repeated reads, C functions that read / write / read-modify-write errno "
+        "called through two API modules, libffi (addressof), a variadic function, dlopen() and "
+        "ffi.verify(), calls that fail in argument conversion, arguments whose conversion runs "
+        "Python code that clobbers the real errno, global variables whose address fetch reads and "
+        "modifies errno (read / write / addressof), ffi.callback and extern \"Python\" functions "
+        "called from C with a C-side errno that differs from the saved one (or directly from "
+        "Python), running nested operations (nesting <= 3) and optionally raising; values over "
+        "0, real errno codes, INT_MIN/MAX, random ints; (b) one multi-thread run: 2-4 "
+        "Python threads + 0-3 foreign pthreads, 200 rounds each of set/call/get, "
+        "read-modify-write calls (API, libffi, dlopen), callbacks entered with a C-side errno, "
+        "or global fetches, with values tagged "
         "(thread id << 20 | counter), 1 us switch interval and random yields between set, call "
-        "and get; distinct = (path, value) resp. interleaving signature of a run; non-trivial = "
-        "value != 0")
+        "and get; distinct = (path, value) resp. (operation, path, value) resp. interleaving "
+        "signature of a run; non-trivial = value != 0")
 ASSUMPTIONS = ["the C helper functions compiled by gcc read and write the real errno of the calling thread"]
 
 PATHS = ['api', 'ffi', 'abi', 'callback', 'externpy', 'globalfetch', 'api_then_python_noise']
 INT_MAX = 2 ** 31 - 1
 
+# second helper module: read-modify-write functions, probes that enter a
+# callback with a C-side errno of their own, a global whose address fetch is a
+# function of the errno it finds, and a pthread driver doing the same
+X_CDEF = r'''
+int c22_get(void);
+void c22_set(int v);
+int c22_add(int k);
+int c22_rmw(int k);
+int c22_vrmw(int k, ...);
+int c22_cb_probe(int (*cb)(int), int pre, int x, int post, int *after);
+extern "Python" int c22_ep(int);
+int c22_ep_probe(int pre, int x, int post, int *after);
+int c22_gv;
+int c22_plain;
+int c22_wave(int n, int ncalls, int base, int (*cb)(int), int use_ep, int sleep_us);
+'''
+X_SOURCE = r'''
+#include <errno.h>
+#include <pthread.h>
+#include <stdlib.h>
+#include <unistd.h>
+#include <stdarg.h>
+
+int c22_get(void) { return errno; }
+void c22_set(int v) { errno = v; }
+/* return the errno found, leave a function of it */
+int c22_add(int k) { int old = errno; errno = (int)((unsigned)old + (unsigned)k); return old; }
+int c22_rmw(int k) { int old = errno; errno = (int)((unsigned)old * 3u + (unsigned)k); return old; }
+int c22_vrmw(int k, ...) { int old = errno; errno = (int)((unsigned)old * 3u + (unsigned)k); return old; }
+static int c22_ep(int);
+/* enter the callback with errno == pre, report the errno it leaves, leave post */
+int c22_cb_probe(int (*cb)(int), int pre, int x, int post, int *after)
+{ int r; errno = pre; r = cb(x); *after = errno; errno = post; return r; }
+int c22_ep_probe(int pre, int x, int post, int *after)
+{ int r; errno = pre; r = c22_ep(x); *after = errno; errno = post; return r; }
+static int c22_real_gv = 4321;
+/* fetching the address of 'c22_gv' adds 7 to the errno it finds */
+#define c22_gv (*(errno = (int)((unsigned)errno + 7u), &c22_real_gv))
+int c22_plain = 99;
+
+struct c22_thr { pthread_t th; int id, ncalls, base, use_ep, sleep_us, mism; int (*cb)(int); };
+static void *c22_thr_main(void *a)
+{
+    struct c22_thr *t = (struct c22_thr *)a;
+    int k;
+    for (k = 0; k < t->ncalls; k++) {
+        int pre = t->base | (t->id << 12) | k, r;
+        errno = pre;                 /* the callback must find this in ffi.errno */
+        r = t->use_ep ? c22_ep(pre) : t->cb(pre);
+        if (errno != r)              /* ... and does 'ffi.errno = r' */
+            t->mism++;
+        if (t->sleep_us)
+            usleep(t->sleep_us);
+    }
+    return NULL;
+}
+int c22_wave(int n, int ncalls, int base, int (*cb)(int), int use_ep, int sleep_us)
+{
+    struct c22_thr *ts = calloc(n, sizeof(struct c22_thr));
+    int i, bad = 0;
+    for (i = 0; i < n; i++) {
+        ts[i].id = i; ts[i].ncalls = ncalls; ts[i].base = base; ts[i].cb = cb;
+        ts[i].use_ep = use_ep; ts[i].sleep_us = sleep_us;
+        if (pthread_create(&ts[i].th, NULL, c22_thr_main, &ts[i]) != 0) {
+            bad += 100000; ts[i].ncalls = -1;
+        }
+    }
+    for (i = 0; i < n; i++) {
+        if (ts[i].ncalls >= 0)
+            pthread_join(ts[i].th, NULL);
+        bad += ts[i].mism;
+    }
+    free(ts);
+    return bad;
+}
+'''
+
+# the same kind of functions through ffi.verify() (its own code generator)
+V_CDEF = "int v22_get(void); void v22_set(int v); int v22_add(int k);"
+V_SOURCE = r'''
+#include <errno.h>
+int v22_get(void) { return errno; }
+void v22_set(int v) { errno = v; }
+int v22_add(int k) { int old = errno; errno = (int)((unsigned)old + (unsigned)k); return old; }
+'''
+V_NAME = '_c22_verify'
+V_SCRIPT = r'''
+import sys, warnings
+warnings.simplefilter('ignore')
+from cffi import FFI
+from props import c22
+ffi = FFI()
+ffi.cdef(c22.V_CDEF)
+lib = ffi.verify(c22.V_SOURCE, tmpdir=sys.argv[1], modulename=c22.V_NAME)
+assert lib.v22_add(0) is not None
+'''
+
+
+def wrap32(x):
+    return ((x + 2 ** 31) % 2 ** 32) - 2 ** 31
+
 
 def build(ctx):
     d = os.path.join(ctx.tmp, 'mod')
-    res = modbuild.build_modules(ctx, [thrmod.spec(d)])['_thrmod']
-    if not res['ok']:
-        raise core.Inconclusive('helper module build failed: ' + res['error'] + res.get('log', ''))
-    return {'dir': d}
+    xspec = {'name': '_c22mod', 'kind': 'api', 'cdef': X_CDEF, 'source': X_SOURCE, 'dir': d,
+             'kwds': {'libraries': ['pthread']}}
+    res = modbuild.build_modules(ctx, [thrmod.spec(d), xspec])
+    for name in ('_thrmod', '_c22mod'):
+        if not res[name]['ok']:
+            raise core.Inconclusive('helper module build failed: ' + res[name]['error'] +
+                                    res[name].get('log', ''))
+    vd = os.path.join(ctx.tmp, 'vmod')
+    os.makedirs(vd, exist_ok=True)
+    try:
+        r = subprocess.run(vbuild.python_cmd('plain') + ['-c', V_SCRIPT, vd],
+                           env=vbuild.child_env('plain'), cwd=vd, stdout=subprocess.PIPE,
+                           stderr=subprocess.STDOUT, timeout=600)
+    except subprocess.TimeoutExpired:
+        raise core.Inconclusive('ffi.verify() helper build timed out')
+    if r.returncode != 0:
+        raise core.Inconclusive('ffi.verify() helper build failed: ' +
+                                r.stdout.decode(errors='replace')[-2000:])
+    return {'dir': d, 'vdir': vd}
 
 
 def run(ctx):
     setup = build(ctx)
     rng = ctx.rng('gen')
-    nv = ctx.scale(600, 20000)
+    nv = ctx.scale(400, 20000)
     cases = []
+    singles = []
     for p in PATHS:
         vals = [0, 1, -1, 2, INT_MAX, -INT_MAX - 1, 77, 11] + \
             [rng.randint(-INT_MAX - 1, INT_MAX) for _ in range(nv)]
-        cases.append({'kind': 'single', 'path': p, 'vals': vals})
-    nruns = ctx.scale(40, 2000)
-    for i in range(0, nruns, 5):
-        cases.append({'kind': 'threads', 'seeds': [rng.getrandbits(40) for _ in range(5)],
-                      'rounds': 200})
+        singles.append({'kind': 'single', 'path': p, 'vals': vals})
+    nseq = ctx.scale(120, 6000)
+    seqs = [{'kind': 'seq', 'seeds': [rng.getrandbits(40) for _ in range(20)], 'nops': 40}
+            for i in range(0, nseq, 20)]
+    nruns = ctx.scale(30, 1000)
+    thr = [{'kind': 'threads', 'seeds': [rng.getrandbits(40) for _ in range(5)], 'rounds': 200}
+           for i in range(0, nruns, 5)]
+    # interleave so that the two children get a similar amount of work
+    # (run_cases gives each of the two children one contiguous half)
+    groups = [thr, singles, seqs]
+    mixed = []
+    while any(groups):
+        for g in groups:
+            if g:
+                mixed.append(g.pop(0))
+    cases = mixed[0::2] + mixed[1::2]
     obs = core.run_cases(ctx, 'c22', setup, cases, variant='asan', nproc=2, timeout=900)
     for c, o in zip(cases, obs):
         if core.std_obs_check(ctx, c, o, True, True):
             judge(ctx, setup, c, o)
     # TSan: deciding only at the errno slot
     tcases = [{'kind': 'threads', 'seeds': [rng.getrandbits(40) for _ in range(3)], 'rounds': 120}
-              for _ in range(ctx.scale(4, 60))]
+              for _ in range(ctx.scale(4, 40))]
     tobs = core.run_cases(ctx, 'c22', setup, tcases, variant='tsan', nproc=2, timeout=900)
     slot = ('save_errno', 'restore_errno', 'b_get_errno', 'b_set_errno', 'cffi_saved_errno')
     for c, o in zip(tcases, tobs):
@@ -69,13 +212,29 @@ def child_setup(setup, wd):
     sys.path.insert(0, setup['dir'])
     import warnings
     warnings.simplefilter('ignore')
-    import _thrmod
+    import _thrmod, _c22mod, _cffi_backend
     from cffi import FFI
     affi = FFI()
     affi.cdef("int get_errno(void); void set_errno(int v); int add_touch(int a);")
     alib = affi.dlopen(_thrmod.__file__)
+    affi.cdef("int c22_get(void); void c22_set(int v); int c22_add(int k); int c22_rmw(int k);"
+              "int c22_vrmw(int k, ...);"
+              "int c22_cb_probe(int (*cb)(int), int pre, int x, int post, int *after);")
+    alibx = affi.dlopen(_c22mod.__file__)
+    vffi = FFI()
+    vffi.cdef(V_CDEF)
+    vlib = vffi.verify(V_SOURCE, tmpdir=setup['vdir'], modulename=V_NAME)
     sys.setswitchinterval(1e-6)
-    return {'ffi': _thrmod.ffi, 'lib': _thrmod.lib, 'affi': affi, 'alib': alib}
+    # extern "Python" c22_ep is attached once; what it runs is switched per history / run
+    ep = {'f': None, 'onerror': None}
+
+    def ep_onerror(exc, val, tb):
+        if ep['onerror'] is not None:
+            ep['onerror'](exc, val, tb)
+    _c22mod.ffi.def_extern(name='c22_ep', error=-7, onerror=ep_onerror)(lambda x: ep['f'](x))
+    return {'ep': ep, 'ffi': _thrmod.ffi, 'lib': _thrmod.lib, 'affi': affi, 'alib': alib,
+            'xffi': _c22mod.ffi, 'xlib': _c22mod.lib, 'alibx': alibx, 'vffi': vffi, 'vlib': vlib,
+            'backend': _cffi_backend}
 
 
 def noise():
@@ -102,7 +261,11 @@ def single(st, case, rep):
         return 0
     for v in case['vals']:
         rep.case((path, v), nontrivial=v != 0, sample={'path': path, 'value': v})
-        w = (v * 7 + 3) % INT_MAX
+        # what the C function leaves: zero, negative and positive values in turn
+        w = [(v * 7 + 3) % INT_MAX, 0, -((v * 5 + 1) % INT_MAX) - 1][v % 3]
+        if w == v:
+            w = 3 if v != 3 else 4
+        rep.stat('c_leaves_' + ('zero' if w == 0 else 'negative' if w < 0 else 'positive'))
         if path in ('api', 'ffi', 'abi', 'api_then_python_noise'):
             f_get = {'api': lib.get_errno, 'ffi': ffi.addressof(lib, 'get_errno'),
                      'abi': alib.get_errno, 'api_then_python_noise': lib.get_errno}[path]
@@ -158,36 +321,419 @@ def single(st, case, rep):
         rep.stat('single_' + path)
 
 
+# ---------------------------------------------------------------------------
+# random operation histories against a model of the thread's errno
+
+class _Harness(Exception):
+    pass
+
+
+class NoisyInt(object):
+    """an argument whose conversion to a C int runs Python code that clobbers
+    the real errno"""
+    def __init__(self, v):
+        self.v = v
+
+    def __int__(self):
+        noise()
+        return self.v
+    __index__ = __int__
+
+
+class _CbError(Exception):
+    pass
+
+
+class Seq(object):
+    """Model: self.m is the errno of this thread as cffi keeps it: what
+    ffi.errno reads and what the next C function finds; a C function leaves
+    its errno there; inside a callback it is the errno of the C caller."""
+    MAXDEPTH = 3
+
+    def __init__(self, st, seed, rep):
+        self.st, self.seed, self.rep = st, seed, rep
+        self.r = random.Random(seed)
+        self.m = None
+        self.trace = []
+        self.pending = []
+        ffi, xffi = st['ffi'], st['xffi']
+        lib, xlib, alib, alibx, vlib = st['lib'], st['xlib'], st['alib'], st['alibx'], st['vlib']
+        self.setters = {
+            'compiled-ffi': lambda v: setattr(xffi, 'errno', v),
+            'compiled-ffi-2': lambda v: setattr(ffi, 'errno', v),
+            'cffi.FFI()': lambda v: setattr(st['affi'], 'errno', v),
+            'verify-ffi': lambda v: setattr(st['vffi'], 'errno', v),
+            'backend': st['backend'].set_errno,
+        }
+        self.getters = {
+            'compiled-ffi': lambda: xffi.errno,
+            'compiled-ffi-2': lambda: ffi.errno,
+            'cffi.FFI()': lambda: st['affi'].errno,
+            'verify-ffi': lambda: st['vffi'].errno,
+            'backend': st['backend'].get_errno,
+        }
+        # path -> function.  get: returns errno; set(v): leaves v;
+        # add(k): returns errno, leaves errno + k; rmw(k): returns errno, leaves 3 * errno + k
+        self.cget = {'api': xlib.c22_get, 'api2': lib.get_errno,
+                     'ffi': xffi.addressof(xlib, 'c22_get'), 'abi': alibx.c22_get,
+                     'abi2': alib.get_errno, 'verify': vlib.v22_get}
+        self.cset = {'api': xlib.c22_set, 'api2': lib.set_errno,
+                     'ffi': xffi.addressof(xlib, 'c22_set'), 'abi': alibx.c22_set,
+                     'abi2': alib.set_errno, 'verify': vlib.v22_set}
+        self.cadd = {'api': xlib.c22_add, 'ffi': xffi.addressof(xlib, 'c22_add'),
+                     'abi': alibx.c22_add, 'verify': vlib.v22_add}
+        self.crmw = {'api': xlib.c22_rmw, 'ffi': xffi.addressof(xlib, 'c22_rmw'),
+                     'abi': alibx.c22_rmw,
+                     'variadic': lambda k: xlib.c22_vrmw(k, xffi.cast('int', 1)),
+                     'variadic-abi': lambda k: alibx.c22_vrmw(k, xffi.cast('int', 1), xffi.NULL)}
+        self.cb = xffi.callback('int(int)', self._cb_body, error=-7, onerror=self._onerror)
+        st['ep']['f'], st['ep']['onerror'] = self._cb_body, self._onerror
+        self.probes = {
+            'callback:api': lambda pre, x, post, after: xlib.c22_cb_probe(self.cb, pre, x, post, after),
+            'callback:ffi': lambda pre, x, post, after:
+                xffi.addressof(xlib, 'c22_cb_probe')(self.cb, pre, x, post, after),
+            'callback:abi': lambda pre, x, post, after: alibx.c22_cb_probe(self.cb, pre, x, post, after),
+            'externpy:api': xlib.c22_ep_probe,
+            'externpy:ffi': xffi.addressof(xlib, 'c22_ep_probe'),
+        }
+        self.directs = {'callback': self.cb, 'externpy': xlib.c22_ep,
+                        'externpy-addressof': xffi.addressof(xlib, 'c22_ep')}
+
+    # -- helpers
+    def val(self):
+        r = self.r
+        c = r.random()
+        if c < 0.15:
+            return 0
+        if c < 0.27:
+            return r.choice([1, -1, 2, INT_MAX, -INT_MAX - 1, INT_MAX - 1, -INT_MAX])
+        if c < 0.55:
+            return r.randint(1, 133)
+        return r.randint(-INT_MAX - 1, INT_MAX)
+
+    def note(self, op, path, value=None):
+        self.trace.append('%s[%s]%s' % (op, path, '' if value is None else '=%d' % value))
+        self.rep.case((op, path, value, self.m), nontrivial=bool(value or self.m),
+                      sample={'op': op, 'path': path, 'value': value})
+        self.rep.stat('seq_' + op + ':' + path)
+
+    def bad(self, mech, msg):
+        self.rep.bad(mech, '%s | history: %s | seed %d' % (msg, ' '.join(self.trace[-12:]),
+                                                           self.seed), self.seed)
+
+    def _onerror(self, exc, val, tb):
+        if exc is not _CbError:
+            self.rep.bad('harness-callback-exception', 'callback raised %r %r' % (exc, val), self.seed)
+
+    def verify(self, mech, path):
+        """read ffi.errno through a random entry point and compare with the model"""
+        name = self.r.choice(sorted(self.getters))
+        got = self.getters[name]()
+        if got != self.m:
+            self.bad(mech + ':' + path, 'expected errno %d, %s reads %d' % (self.m, name, got))
+            self.m = got
+
+    def maybe_verify(self, mech, path):
+        if self.r.random() < 0.7:
+            self.verify(mech, path)
+
+    def saw(self, path, got):
+        """a C function reported the errno it found"""
+        if got != self.m:
+            self.bad('errno-not-passed-to-c:' + path, 'errno is %d, the C function saw %d'
+                     % (self.m, got))
+            self.m = got
+
+    # -- operations
+    def op_set(self):
+        name = self.r.choice(sorted(self.setters))
+        v = self.val()
+        self.note('set', name, v)
+        self.setters[name](v)
+        self.m = v
+
+    def op_set_out_of_range(self):
+        name = self.r.choice(sorted(self.setters))
+        x = self.r.choice([2 ** 31, -2 ** 31 - 1, 2 ** 32 + self.r.randint(0, 200),
+                           2 ** 32 * self.r.randint(1, 1000) + self.r.randint(-200, 200),
+                           -2 ** 32 + self.r.randint(0, 200), 2 ** 63, -2 ** 63 - 1,
+                           2 ** 64 + self.r.randint(0, 200)])
+        self.note('set_out_of_range', name)
+        try:
+            self.setters[name](x)
+        except Exception:
+            return                      # nothing was assigned: the model is unchanged
+        # accepted: then this must be the errno a C function sees, which no int can be
+        got = self.cget['api']()
+        if got != x:
+            self.bad('errno-out-of-range-value-accepted', 'ffi.errno = %d was accepted, the C '
+                     'function then saw %d' % (x, got))
+            self.m = got
+
+    def op_get(self):
+        for _ in range(self.r.choice([1, 2, 3])):
+            name = self.r.choice(sorted(self.getters))
+            self.note('get', name)
+            got = self.getters[name]()
+            if got != self.m:
+                self.bad('errno-read-differs', 'expected errno %d, %s reads %d' % (self.m, name, got))
+                self.m = got
+
+    def op_cget(self):
+        path = self.r.choice(sorted(self.cget))
+        self.note('cget', path)
+        self.saw(path, self.cget[path]())
+        self.maybe_verify('errno-not-returned-from-c', path)
+
+    def op_cset(self):
+        path = self.r.choice(sorted(self.cset))
+        w = self.val()
+        self.note('cset', path, w)
+        self.cset[path](w)
+        self.m = w
+        self.maybe_verify('errno-not-returned-from-c', path)
+
+    def op_cadd(self, table=None, opname='cadd', f=lambda m, k: m + k):
+        table = table or self.cadd
+        path = self.r.choice(sorted(table))
+        k = self.r.choice([0, 1, -1, self.r.randint(-1000, 1000)])
+        self.note(opname, path, k)
+        self.saw(path, table[path](k))
+        self.m = wrap32(f(self.m, k))
+        self.maybe_verify('errno-not-returned-from-c', path)
+
+    def op_crmw(self):
+        self.op_cadd(self.crmw, 'crmw', lambda m, k: m * 3 + k)
+
+    def op_noise(self):
+        self.note('noise', 'python')
+        noise()
+
+    def op_failcall(self):
+        path = self.r.choice(['api', 'ffi', 'abi', 'verify'])
+        arg = self.r.choice([('x',), (), (2 ** 40,), (1.5,), (None,), (1, 2)])
+        self.note('failcall', path)
+        try:
+            self.cadd[path](*arg)
+        except (TypeError, OverflowError):
+            pass
+        else:
+            raise _Harness('call with arguments %r did not fail' % (arg,))
+        self.maybe_verify('errno-changed-by-failed-call', path)
+
+    def op_argnoise(self):
+        path = self.r.choice(['api', 'ffi', 'abi', 'verify'])
+        k = self.r.randint(-1000, 1000)
+        self.note('argnoise', path, k)
+        self.saw(path + ':converting-arguments-runs-python', self.cadd[path](NoisyInt(k)))
+        self.m = wrap32(self.m + k)
+        self.maybe_verify('errno-not-returned-from-c', path)
+
+    def op_gfetch(self):
+        st = self.st
+        var = self.r.choice(['gvar', 'c22_gv', 'c22_plain'])
+        mode = self.r.choice(['read', 'write', 'addressof'])
+        f, l, real = {'gvar': (st['ffi'], st['lib'], 1234), 'c22_gv': (st['xffi'], st['xlib'], 4321),
+                      'c22_plain': (st['xffi'], st['xlib'], 99)}[var]
+        self.note('gfetch', var + ':' + mode)
+        if mode == 'read':
+            x = getattr(l, var)
+        elif mode == 'write':
+            setattr(l, var, real)
+            x = real
+        else:
+            x = f.addressof(l, var)[0]
+        if x != real:
+            raise _Harness('%s reads %r' % (var, x))
+        # what the accessor leaves: 77 / the errno it found + 7 / the errno it found
+        self.m = {'gvar': 77, 'c22_gv': wrap32(self.m + 7), 'c22_plain': self.m}[var]
+        self.verify('errno-after-global-fetch', var)
+
+    def _cb_body(self, x):
+        # x: index into self.pending
+        try:
+            ent = self.pending[x]
+            depth, pre, raises, kind = ent['depth'], ent['pre'], ent['raises'], ent['kind']
+            if pre is not None:
+                self.m = pre            # the errno the C caller had
+            self.verify('errno-of-c-caller-not-seen-in-callback', kind)
+            for _ in range(ent['ninner']):
+                self.step(depth + 1)
+            ent['left'] = self.m
+        except _Harness as e:
+            self.rep.bad('harness-seq', 'in callback: %s' % (e,), self.seed)
+            return 0
+        if raises:
+            raise _CbError
+        return x + 1000
+
+    def op_callback(self, depth):
+        if depth >= self.MAXDEPTH:
+            return self.op_cget()
+        st = self.st
+        direct = self.r.random() < 0.3
+        raises = self.r.random() < 0.2
+        ninner = self.r.choice([0, 1, 1, 2, 3, 5])
+        x = len(self.pending)
+        if direct:
+            kind = self.r.choice(sorted(self.directs))
+            self.note('callback-direct', kind)
+            self.pending.append({'depth': depth, 'pre': None, 'raises': raises, 'ninner': ninner,
+                                 'kind': kind})
+            res = self.directs[kind](x)
+            left = self.pending[x].get('left')
+            if left is None:
+                raise _Harness('callback not run')
+            self.m = left               # nothing in C touched errno after the callback
+            path = kind
+        else:
+            kind = self.r.choice(sorted(self.probes))
+            pre, post = self.val(), self.val()
+            self.note('callback-probe', kind, pre)
+            self.pending.append({'depth': depth, 'pre': pre, 'raises': raises, 'ninner': ninner,
+                                 'kind': kind})
+            after = st['xffi'].new('int *', 123456789)
+            res = self.probes[kind](pre, x, post, after)
+            left = self.pending[x].get('left')
+            if left is None:
+                raise _Harness('callback not run')
+            if after[0] != left:
+                self.bad('errno-set-in-callback-lost:' + kind.split(':')[0],
+                         'errno was %d at the end of the callback, the C caller read %d'
+                         % (left, after[0]))
+            self.m = post
+            path = kind
+        if res != (-7 if raises else x + 1000):
+            raise _Harness('callback result %r' % (res,))
+        self.rep.stat('seq_callback_depth_%d' % (depth + 1))
+        if raises:
+            self.rep.stat('seq_callback_raises')
+        self.maybe_verify('errno-not-returned-from-c', path)
+
+    OPS = [('set', 14), ('set_out_of_range', 3), ('get', 10), ('cget', 12), ('cset', 12),
+           ('cadd', 8), ('crmw', 8), ('noise', 6), ('failcall', 4), ('argnoise', 4),
+           ('gfetch', 9), ('callback', 10)]
+
+    def step(self, depth):
+        if self.m is None:
+            return self.op_set()
+        tot = sum(w for _, w in self.OPS)
+        c = self.r.random() * tot
+        for name, w in self.OPS:
+            c -= w
+            if c < 0:
+                break
+        if name == 'callback':
+            return self.op_callback(depth)
+        return getattr(self, 'op_' + name)()
+
+    def run(self, nops):
+        try:
+            for _ in range(nops):
+                self.step(0)
+            self.verify('errno-read-differs', 'end')
+        except _Harness as e:
+            self.rep.bad('harness-seq', '%s | history: %s | seed %d' %
+                         (e, ' '.join(self.trace[-12:]), self.seed), self.seed)
+
+
+# ---------------------------------------------------------------------------
+
 def threads_run(st, seed, rounds, rep):
     ffi, lib = st['ffi'], st['lib']
+    xffi, xlib, alibx = st['xffi'], st['xlib'], st['alibx']
     rnd = random.Random(seed)
     npy = rnd.choice([2, 3, 4])
     nforeign = rnd.choice([0, 1, 2, 3])
     log = []
     lock = threading.Lock()
+    kinds = {}
+    kinds_of = {}
 
     def ev(*a):
         with lock:
             log.append(a)
     bad = []
+    MAIN = 8 << 20
+    ffi.errno = MAIN | 1
+
+    # entered from C with errno == x (tagged by the calling thread); leaves x ^ 0x80000
+    def probe_body(x):
+        try:
+            who = ('cb', (x >> 20) - 1)
+            got = xffi.errno
+            ev(who, 'pyget-in-callback', got)
+            if got != x:
+                bad.append((who, 'py-saw-in-callback', x, got))
+            if x & 1:
+                time.sleep(0)
+            got = xlib.c22_add(1)          # nested C call inside the callback
+            if got != x:
+                bad.append((who, 'c-saw-in-callback', x, got))
+            got = xffi.errno
+            if got != x + 1:
+                bad.append((who, 'py-saw-in-callback', x + 1, got))
+            xffi.errno = x ^ 0x80000
+            ev(who, 'set', x ^ 0x80000)
+            if x & 2:
+                time.sleep(0)
+        except Exception as e:
+            bad.append((('cb', 0), 'harness', 0, repr(e)))
+        return x ^ 0x80000
+    probe_cb = xffi.callback('int(int)', probe_body)
+    st['ep']['f'], st['ep']['onerror'] = probe_body, None
 
     def worker(t):
         r = random.Random(seed * 31 + t)
+        mykinds = kinds_of[t] = {}
+        first = ffi.errno
+        ev(t, 'first-pyget', first)
+        if first >> 20:
+            bad.append((t, 'py-saw-in-fresh-thread', 0, first))
         use_ffi = r.random() < 0.5
         get = ffi.addressof(lib, 'get_errno') if use_ffi else lib.get_errno
         setf = ffi.addressof(lib, 'set_errno') if use_ffi else lib.set_errno
+        adders = [xlib.c22_add, xffi.addressof(xlib, 'c22_add'), alibx.c22_add]
+        after = xffi.new('int *')
         for i in range(rounds):
             v = ((t + 1) << 20) | i
+            w = ((t + 1) << 20) | (i + 500000)
+            kind = r.choice(['getset', 'getset', 'add', 'probe', 'gfetch'])
+            mykinds[kind] = mykinds.get(kind, 0) + 1
             ffi.errno = v
             ev(t, 'set', v)
             if r.random() < 0.5:
                 time.sleep(0)
-            got = get()
-            ev(t, 'cget', got)
-            if got != v:
-                bad.append((t, 'c-saw', v, got))
-            w = ((t + 1) << 20) | (i + 500000)
-            setf(w)
+            if kind == 'getset':
+                got = get()
+                ev(t, 'cget', got)
+                if got != v:
+                    bad.append((t, 'c-saw', v, got))
+                setf(w)
+            elif kind == 'add':
+                got = r.choice(adders)(500000)
+                ev(t, 'cget', got)
+                if got != v:
+                    bad.append((t, 'c-saw', v, got))
+            elif kind == 'probe':
+                # the callback is entered with errno == v + 1000 and must leave (v + 1000) ^ 0x80000
+                pre = v + 1000
+                after[0] = 0
+                if r.random() < 0.5:
+                    xlib.c22_cb_probe(probe_cb, pre, pre, w, after)
+                else:
+                    xlib.c22_ep_probe(pre, pre, w, after)
+                ev(t, 'cget-after-callback', after[0])
+                if after[0] != pre ^ 0x80000:
+                    bad.append((t, 'c-saw-after-callback', pre ^ 0x80000, after[0]))
+            else:
+                # the address fetch adds 7 to the errno it finds
+                x = xlib.c22_gv
+                got = ffi.errno
+                ev(t, 'pyget', got)
+                if got != v + 7:
+                    bad.append((t, 'py-saw-after-global-fetch', v + 7, got))
+                setf(w)
             if r.random() < 0.5:
                 time.sleep(0)
             if r.random() < 0.1:
@@ -209,17 +755,31 @@ def threads_run(st, seed, rounds, rep):
     ths = [threading.Thread(target=worker, args=(t,)) for t in range(npy)]
     for th in ths:
         th.start()
-    mism = 0
+    mism = mismx = 0
     if nforeign:
-        nc = ffi.new('int[]', [rounds // 4] * nforeign)
-        sl = ffi.new('int[]', [rnd.choice([0, 0, 10]) for _ in range(nforeign)])
-        ex = ffi.new('int[]', [0] * nforeign)
-        mism = lib.run_wave(1, nforeign, nc, sl, ex, thr_cb, 0)
+        if rnd.random() < 0.5:
+            nc = ffi.new('int[]', [rounds // 4] * nforeign)
+            sl = ffi.new('int[]', [rnd.choice([0, 0, 10]) for _ in range(nforeign)])
+            ex = ffi.new('int[]', [0] * nforeign)
+            mism = lib.run_wave(1, nforeign, nc, sl, ex, thr_cb, 0)
+            kinds['foreign_wave_set_in_callback'] = kinds.get('foreign_wave_set_in_callback', 0) + 1
+        else:
+            # foreign threads enter the callback with an errno of their own
+            mismx = xlib.c22_wave(nforeign, rounds // 4, 13 << 20, probe_cb, rnd.choice([0, 1]),
+                                  rnd.choice([0, 0, 10]))
+            kinds['foreign_wave_errno_into_callback'] = \
+                kinds.get('foreign_wave_errno_into_callback', 0) + 1
     for th in ths:
         th.join(120)
     alive = [th for th in ths if th.is_alive()]
+    for d in list(kinds_of.values()):
+        for k, n in d.items():
+            kinds[k] = kinds.get(k, 0) + n
+    got = ffi.errno
+    if got != MAIN | 1 and not nforeign:
+        bad.append(('main', 'py-saw', MAIN | 1, got))
     sig = tuple((str(e[0]), e[1]) for e in log[:400])
-    return npy, nforeign, log, bad, mism, alive, sig
+    return npy, nforeign, log, bad, (mism, mismx), alive, sig, kinds
 
 
 def child_case(st, case):
@@ -227,8 +787,14 @@ def child_case(st, case):
     if case['kind'] == 'single':
         single(st, case, rep)
         return rep.result()
+    if case['kind'] == 'seq':
+        for seed in case['seeds']:
+            Seq(st, seed, rep).run(case['nops'])
+            rep.stat('seq_histories')
+        return rep.result()
     for seed in case['seeds']:
-        npy, nf, log, bad, mism, alive, sig = threads_run(st, seed, case['rounds'], rep)
+        npy, nf, log, bad, (mism, mismx), alive, sig, kinds = \
+            threads_run(st, seed, case['rounds'], rep)
         # contended = events of different threads alternate
         switches = sum(1 for a, b in zip(log, log[1:]) if a[0] != b[0])
         rep.case(sig, nontrivial=switches > 10,
@@ -238,9 +804,14 @@ def child_case(st, case):
         rep.stat('events', len(log))
         rep.stat('thread_switches_in_log', switches)
         rep.stat('foreign_threads', nf)
+        for k, n in kinds.items():
+            rep.stat('thread_rounds_' + k, n)
         if alive:
             rep.bad('harness-watchdog', 'threads did not finish (inconclusive)', seed)
         for t, what, exp, got in bad[:5]:
+            if what == 'harness':
+                rep.bad('harness-thread-callback', 'exception in callback: %s' % (got,), seed)
+                continue
             owner = got >> 20
             rep.bad('errno-of-another-thread-observed' if got >> 20 not in (0,) and
                     (got >> 20) != (exp >> 20) else 'errno-lost-in-thread',
@@ -250,6 +821,10 @@ def child_case(st, case):
             rep.bad('errno-set-in-callback-lost:foreign-thread', '%d foreign-thread callbacks: C '
                     'did not read the errno assigned inside the callback | seed %d' % (mism, seed),
                     seed)
+        if mismx:
+            rep.bad('errno-set-in-callback-lost:foreign-thread', '%d foreign-thread callbacks '
+                    'entered with an errno of the C caller: C did not read the errno assigned '
+                    'inside the callback | seed %d' % (mismx, seed), seed)
     return rep.result()
 
 
@@ -257,6 +832,8 @@ def judge(ctx, setup, case, obs):
     def rp(detail):
         if case['kind'] == 'single':
             return {'kind': 'single', 'path': detail[0], 'vals': [detail[1]]}
+        if case['kind'] == 'seq':
+            return {'kind': 'seq', 'seeds': [detail], 'nops': case['nops']}
         return {'kind': 'threads', 'seeds': [detail], 'rounds': case['rounds']}
     core.absorb(ctx, case, obs, rp)
 
